@@ -4,6 +4,7 @@ import (
 	"encoding/json"
 	"fmt"
 	"math/rand"
+	"strings"
 	"sync"
 
 	"github.com/tidwall/geojson"
@@ -75,6 +76,45 @@ func c11(args []string) error {
 				t, err := parseTree(raw[1])
 				if err != nil {
 					panic(err)
+				}
+				var tag string
+				json.Unmarshal(raw[0], &tag)
+				if tag == "C11V" { // non-finite ordinates: only Empty / Valid / NumPoints are stated
+					var empty, valid, n int
+					json.Unmarshal(raw[2], &empty)
+					json.Unmarshal(raw[3], &valid)
+					json.Unmarshal(raw[4], &n)
+					lr++
+					checkV := func(o geojson.Object, via string, skipN bool) {
+						le += 3
+						bad := func(what string, g, e interface{}) {
+							lm++
+							ev.Emit(obj{"op": what, "tree": t.JSON(), "got": g, "exp": e, "via": via, "src": "replay"})
+						}
+						if g := o.Empty(); g != (empty == 1) {
+							bad("empty", g, empty == 1)
+						}
+						if g := o.Valid(); g != (valid == 1) {
+							bad("valid", g, valid == 1)
+						}
+						if g := o.NumPoints(); !skipN && g != n {
+							bad("npoints", g, n)
+						}
+					}
+					for ci := range indexConfigs {
+						checkV(t.Build(SpecialMap, &indexConfigs[ci]), fmt.Sprintf("constructors/index%d", ci), false)
+					}
+					text := t.Render(Identity)
+					if !strings.Contains(text, "1000002") && !strings.Contains(text, "1000003") {
+						text = strings.ReplaceAll(text, "1000001", "null") // a null ordinate is read as NaN
+						for pi := range parseOptSets {
+							if o, err := geojson.Parse(text, &parseOptSets[pi]); err == nil {
+								lp++
+								checkV(o, fmt.Sprintf("parse/opts%d/null-ordinate", pi), true)
+							}
+						}
+					}
+					continue
 				}
 				var empty, valid, n int
 				var rect, c2 []int
